@@ -512,11 +512,11 @@ func main() {
 	o.DeclareSuite("update", "From Verif Require Import C08.Model.", "case", "run_case")
 	o.Rule("generated (disk, payload, handler) triples: payloads add / change / re-send / (apply_flows) remove files of the " +
 		"five configuration places, with undecodable base64, undecodable JSON, wrong HTTP method, contents failing " +
-		"validation, contents failing the metrics reload, a file name escaping its directory; each triple is run without " +
-		"fault and then once per verifhook.Fault call index of the fault-free and of the failing run (fs.store, fs.remove, " +
-		"engine.init), probes at every hook call, at the engine.published yield, before and after; distinct = distinct " +
-		"(inputs, observables); non-trivial = the update failed after at least one file had been written or removed, or " +
-		"succeeded and changed the engine view")
+		"validation, contents failing the metrics reload, file names escaping their directory, sub-directories; each triple is " +
+		"run without fault and then once per verifhook.Fault call index of that run (fs.store, fs.remove, engine.init; for a " +
+		"bad payload the calls of the roll-back are included), probes at every hook call, at the engine.published yield, " +
+		"before and after; distinct = distinct (inputs, observables); non-trivial = the update failed after at least one " +
+		"fs.store / fs.remove call had been made, or succeeded and changed the engine view")
 	s := newSut()
 	s.calibrate(o)
 	var k Case
@@ -588,8 +588,8 @@ func (s *sut) runCase(o *c.Out, k *Case) {
 }
 
 // reintern maps the tokens of a replayed case (which index the tables of the
-// run that wrote it) onto this run's tables: contents are regenerated from the
-// (area, rel, sha) of the generator's deterministic content functions.
+// run that wrote it) onto this run's tables, using the contents table the
+// replay file carries.
 func (s *sut) reintern(k *Case) {
 	g := newGen(c.NewRng(1))
 	g.rebuild(s, k)
